@@ -645,6 +645,48 @@ def leftover_blocks(ctx, n):
         ctx.nontrivial("leftover:" + c["id"])
 
 
+def faults_in_large_files(ctx, n):
+    """A file of several blocks whose leading blocks are already in the archive (an earlier version holds the same file with
+    another tail); every write and directory creation under d/ of the next backup fails in turn: the backup removes nothing
+    and alters nothing that was there."""
+    cases = []
+    for t in range(n):
+        mbs = ctx.rng.choice([8, 16])
+        body = bytes(ctx.rng.randrange(1, 255) for _ in range(3 * mbs))
+        ta = scen.small_tree(ctx.rng)
+        ta["c"]["big"] = {"k": "f", "data": body.hex(), "mode": 0o644, "mtime": 10**18 + 1}
+        tb = json.loads(json.dumps(ta))
+        tb["c"]["big"] = {"k": "f", "data": (body[:2 * mbs] + bytes(ctx.rng.randrange(1, 255) for _ in range(mbs + 3))).hex(), "mode": 0o644, "mtime": 10**18 + 2}
+        o = {"meph": 100000, "mbs": mbs, "sfc": 0}
+        pre = [{"op": "init"}, {"op": "mktree", "path": "src", "tree": ta}, {"op": "backup", "opts": o}, {"op": "mktree", "path": "src", "tree": tb}, {"op": "arch"}]
+        probe = ctx.cvh_run([{"id": "p", "steps": pre + [{"op": "backup", "opts": o}]}]).get("p")
+        if not probe or not probe[5].get("trace"):
+            continue
+        targets = [(it["verb"], it["path"]) for it in probe[5]["trace"] if it.get("verb") in ("Write", "CreateDir") and str(it.get("path", "")).startswith("d/")]
+        for k, (verb, path) in enumerate(targets[:6]):
+            rule = [verb, path, 0, ctx.rng.choice(["Other", "PermissionDenied", "AlreadyExists", "NotFound"])]
+            cases.append({"id": f"lf{t}_{k}", "steps": pre + [{"op": "backup", "opts": o, "plan": {"rules": [rule]}}, {"op": "arch"}], "rule": rule})
+    res = ctx.cvh_run(cases)
+    for c in cases:
+        r = res.get(c["id"])
+        ctx.count()
+        small = {"steps": c["steps"]}
+        if r is None or r[5].get("panic"):
+            ctx.oracle_fail("writeonce/panic", f"a backup with a failing block operation {c['rule']} crashed or hung", small)
+            continue
+        rm = [it for it in r[5].get("trace", []) if it.get("verb") in ("RemoveFile", "RemoveDirAll")]
+        if rm:
+            ctx.oracle_fail("writeonce/backup-issued-remove", f"after {c['rule']} failed the backup issued {rm[0]['verb']} {rm[0]['path']}", small)
+            continue
+        before, after = scen.raw_files(r[4]["arch"]), scen.raw_files(r[6]["arch"])
+        bad = [p_ for p_ in before if after.get(p_) != before[p_]]
+        if bad:
+            ctx.oracle_fail("writeonce/backup-altered-file", f"after {c['rule']} failed the backup changed or removed {bad[0]}", small)
+            continue
+        ctx.dist("faulted_large_file_backups")
+        ctx.nontrivial("large-file-fault:" + c["id"])
+
+
 def exclusive_creation(ctx, rounds):
     """The atomicity the interleaving model (run2: whole transport operations) takes for granted: of several writers creating
     the same fresh path with CreateNew at the same moment, exactly one wins and the file holds the winner's bytes."""
@@ -683,6 +725,7 @@ def run(ctx):
     collector_beside_backup(ctx, 3 if quick else 30)
     failing_deletes(ctx, 9 if quick else 90)
     leftover_blocks(ctx, 6 if quick else 60)
+    faults_in_large_files(ctx, 2 if quick else 20)
     exclusive_creation(ctx, 4000 if quick else 60000)
     ctx.assumptions += ["the local transport is the one exercised; S3/SFTP are outside (they already refuse an existing path)",
                         "a zero-length leftover of a killed write may be completed (documented exception)"]
